@@ -231,6 +231,22 @@ CHECKS = {
         "Reference categorisation transcribed from PS3.7 Annex C; DIMSE provider replaced by a recording double; sub-operations stubbed to succeed.",
         "3/C28",
     ),
+    "C29": (
+        "exploration",
+        "enum",
+        "bounded-exhaustive enumeration of small databases x identifiers (every matching type per key at every level) through the real qrscp search()/handle_find() over SQLite against a reference matcher",
+        "Every database of <= 3 instances out of a 7-instance universe (plus the full universe; quick tier every k-th database) whose values separate literal characters from SQL wildcards and upper from lower case, combined with ~400 identifiers: every query level of both information models, every matching type per key (absent, universal, single value, * and ? wildcards, UID list, the three range forms), invalid hierarchies, and the C-GET/C-MOVE restriction to unique keys; the set of entities returned by the real search() and the responses of handle_find() must equal the set selected by the PS3.4 C.2.2.2 / C.4.1 reference, one response per entity.",
+        "Reference matcher transcribed from PS3.4 (vk/ref/match.py); PN case sensitivity is left unconstrained; the DIMSE layer is not involved.",
+        "3/C29",
+    ),
+    "C30": (
+        "exploration",
+        "enum",
+        "bounded-exhaustive enumeration of SOP Instance / SOP Class UID strings over a path-metacharacter alphabet through the real handle_store of qrscp and storescp inside a snapshotted jail directory",
+        "All strings of length <= 3 (thorough 4) over {'1', '.', '/', '\\\\', '~', NUL}, every string of length <= 2 followed by each of three traversal tails, and 20 hostile strings (relative and absolute traversal, drive / UNC forms, newline, 300 characters) are used as SOP Instance UID (and the hostile and short ones as SOP Class UID) of a C-STORE event handed to the real handle_store of both apps, with the storage directory three levels deep in a jail containing decoy sub-directories; the complete jail is snapshotted before and after each call and everything created or modified must lie inside the storage directory (or be the database file).",
+        "Handlers are called with an event double carrying a real pydicom Dataset; POSIX path semantics; symlinks inside the storage directory are not part of the alphabet.",
+        "3/C30",
+    ),
 }
 
 ALL = [f"C{i:02d}" for i in range(1, 31)]
